@@ -44,7 +44,12 @@ def _work(job):
     return ground.run(name)
 
 
-def _child(job, conn):
+def _child(job, conn, attempt=0):
+    os.environ['PYVC_WORKER'] = '1'
+    os.environ['PYVC_ATTEMPT'] = str(attempt)
+    if os.environ.get('PYVC_DUMP'):      # debugging aid: where is a worker after N seconds?
+        import faulthandler
+        faulthandler.dump_traceback_later(int(os.environ['PYVC_DUMP']), exit=False)
     try:
         conn.send(_work(job))
     except BaseException as e:       # noqa: B902
@@ -62,20 +67,21 @@ def run_jobs(jobs, nproc, budget_s):
     results = [None] * len(jobs)
     pending = list(range(len(jobs)))
     running = {}
-    retried = set()
+    retried = {}
 
     def died(k, p):
-        """a worker that crashed (z3 can segfault when its watchdog interrupts it at the wrong moment) is run once more"""
-        if k not in retried:
-            retried.add(k)
+        """a worker that crashed (z3 can segfault when its watchdog interrupts it at the wrong moment) is run again with another solver seed,
+        up to four attempts in all"""
+        retried[k] = retried.get(k, 0) + 1
+        if retried[k] < 4:
             pending.append(k)
             return None
-        return dict(qual=jobs[k][1], obligations=[], infos=[], error='worker died without a result, twice (exit code %s)' % p.exitcode)
+        return dict(qual=jobs[k][1], obligations=[], infos=[], error='worker died without a result, four times (exit code %s)' % p.exitcode)
     while pending or running:
         while pending and len(running) < nproc:
             k = pending.pop(0)
             parent, child = ctx.Pipe(duplex=False)
-            p = ctx.Process(target=_child, args=(jobs[k], child))
+            p = ctx.Process(target=_child, args=(jobs[k], child, retried.get(k, 0)))
             p.start()
             child.close()
             running[k] = (p, parent, time.time())
@@ -172,6 +178,8 @@ def main(argv=None):
     from pyvc import ground
     import bounded.strings  # noqa: F401  (registers the bounded stand-ins)
     quals = [q for q, c in reg.contracts.items() if pid in c.serves and not c.external]
+    if os.environ.get('PYVC_ONLY'):      # debugging aid: restrict the run to some functions (never used by registered commands)
+        quals = [q for q in quals if any(q.endswith(x) for x in os.environ['PYVC_ONLY'].split(','))]
     grounds = [g for g in ground.CHECKS if pid in ground.CHECKS[g].serves]
     timeout_ms = 20000 if tier == 'quick' else 60000
     jobs = [('fn', q, timeout_ms, tier == 'thorough', vi) for q in quals for vi in range(len(reg.contracts[q].variants()))]
